@@ -11,4 +11,4 @@ def extra(ctx, info, rng, fam, hs):
 
 
 def main(ctx, replay):
-    return queuefam.run_property(ctx, "C12", 200, 3000, extra=extra)
+    return queuefam.run_property(ctx, "C12", 200, 3000, extra=extra, extra_prop_files=("C12rl",))
